@@ -3,7 +3,7 @@
    (tools/lockskel.py -> generated/LockSkel.v); the theorems below are then applied to what the code says now.
    Model: Conc.v - threads over one non-reentrant mutex guarding the generator cursor (std::sync::Mutex contract). *)
 From Coq Require Import List NArith Bool Arith Lia String.
-From CC Require Import Conc.
+From CC Require Import Conc ConcProofs1 ConcProofs2.
 From CC.generated Require Import LockSkel.
 Import ListNotations.
 
@@ -54,3 +54,68 @@ Print Assumptions C19_cursor_moves_only_by_owner.
 Theorem C19_nested_rejected : well_bracketed [Acq; Acq; Rel; Rel] = false /\ well_bracketed [Acq; Unknown; Rel] = false.
 Proof. split; reflexivity. Qed.
 Print Assumptions C19_nested_rejected.
+
+(* ---- liveness, isolation and freshness over whole executions (ConcProofs1/2.v) ---- *)
+(* every API call's skeleton being well bracketed, so is any sequence of calls a thread makes; then: progress, bounded
+   schedules, every maximal execution finishes; a thread is only ever blocked while ANOTHER thread holds the lock, and the
+   holder always releases within its own critical section; each critical section sees exactly the generator values it
+   would see running alone from the cursor at its acquisition; the generator ranges consumed by different draws (of any
+   threads) are pairwise disjoint. *)
+Theorem C19_no_call_blocks_forever :
+  forall (k0 : N) (ps : list program),
+       all_wb ps ->
+       (forall c : conf, reachable k0 ps c -> finished c \/ (exists i : nat, enabled c i)) /\
+       (forall (sch : list nat) (c : conf), exec (init k0 ps) sch c -> List.length sch <= List.length (List.concat ps)) /\
+       (forall (sch : list nat) (c : conf), exec (init k0 ps) sch c -> stuck c -> finished c).
+Proof. exact (@no_call_blocks_forever). Qed.
+Print Assumptions C19_no_call_blocks_forever.
+
+Theorem C19_holder_releases :
+  forall (c : conf) (j : nat),
+       Inv c ->
+       owner c = Some j ->
+       exists (ns : list N) (rest : list ev) (c' : conf),
+         nth_error (threads c) j = Some (map Draw ns ++ Rel :: rest) /\
+         exec c (repeat j (S (List.length ns))) c' /\
+         owner c' = None /\ cursor c' = (cursor c + sumN ns)%N /\ nth_error (threads c') j = Some rest.
+Proof. exact (@holder_releases). Qed.
+Print Assumptions C19_holder_releases.
+
+Theorem C19_blocked_only_while_other_holds :
+  forall (c : conf) (i : nat) (p : program),
+       Inv c ->
+       nth_error (threads c) i = Some p ->
+       p <> [] -> ~ enabled c i -> exists j : nat, owner c = Some j /\ j <> i.
+Proof. exact (@blocked_only_while_other_holds). Qed.
+Print Assumptions C19_blocked_only_while_other_holds.
+
+Theorem C19_section_as_alone :
+  forall (k0 : N) (ps : list program) (sch : list nat) (c : conf) (i : nat) 
+         (p : program) (k k' : N) (tr1 mid tr2 : list (nat * label)),
+       exec (init k0 ps) sch c ->
+       nth_error ps i = Some p ->
+       trace (init k0 ps) sch = tr1 ++ (i, LAcq k) :: mid ++ (i, LRel k') :: tr2 ->
+       (forall kk : N, ~ In (i, LRel kk) mid) ->
+       exists ns : list N,
+         nth_error (sections p) (count_acq i tr1) = Some ns /\
+         mid = section_obs i k ns /\ map cursor_seen mid = run_alone k ns /\ k' = (k + sumN ns)%N.
+Proof. exact (@section_as_alone). Qed.
+Print Assumptions C19_section_as_alone.
+
+Theorem C19_draw_intervals_disjoint :
+  forall (k0 : N) (ps : list program) (sch : list nat) (c : conf) (a b : nat) (da db : nat * N * N),
+       pos_draws ps ->
+       exec (init k0 ps) sch c ->
+       a < b ->
+       nth_error (draw_trace (init k0 ps) sch) a = Some da ->
+       nth_error (draw_trace (init k0 ps) sch) b = Some db ->
+       (0 < d_len da)%N /\ (0 < d_len db)%N /\ (d_cur da + d_len da <= d_cur db)%N.
+Proof. exact (@draw_intervals_disjoint). Qed.
+Print Assumptions C19_draw_intervals_disjoint.
+
+Theorem C19_self_deadlock :
+  exists c : conf, reachable 0 [[Acq; Acq; Rel; Rel]] c /\ ~ finished c /\ stuck c.
+Proof. exact (@self_deadlock). Qed.
+Print Assumptions C19_self_deadlock.
+
+
